@@ -170,19 +170,24 @@ func (w *world) do(s Stim) (ret string, reply kit.Msg, pan string) {
 	case "UpdateValidation":
 		err = m.UpdateValidationStatus(ctx, chid, s.Val.Result())
 	case "Close":
+		cancels := func() int {
+			k := 0
+			for _, c := range w.n.Net.Since(0) {
+				if c.What == "send" && c.Msg.Kind == "Cancel" && c.Msg.Tid == uint64(chid.ID) {
+					k++
+				}
+			}
+			return k
+		}
+		k0 := cancels()
 		cctx, ccancel := context.WithCancel(ctx)
 		err = m.CloseDataTransferChannel(cctx, chid)
 		ccancel() // the usual `defer cancel()` of a caller: the cancel message must still reach the counterparty
-		// the cancel message is sent from a goroutine: wait for it
-		deadline := time.Now().Add(2 * time.Second)
+		// the cancel message is sent from a goroutine: wait for THIS call's message (an earlier close of the same channel has sent one already),
+		// otherwise it lands in the observation window of the next step
+		deadline := time.Now().Add(5 * time.Second)
 		for time.Now().Before(deadline) {
-			found := false
-			for _, c := range w.n.Net.Since(0) {
-				if c.What == "send" && c.Msg.Kind == "Cancel" && c.Msg.Tid == uint64(chid.ID) {
-					found = true
-				}
-			}
-			if found || err != nil {
+			if cancels() > k0 || err != nil {
 				break
 			}
 			time.Sleep(100 * time.Microsecond)
